@@ -30,6 +30,10 @@ def fmtList (xs : List Bytes) : Bytes := str "[" ++ joinB (str " ") xs ++ str "]
 
 /-! ### names that enter identities (hand-modelled loops of construct.go) -/
 
+/-- the identifiers that are direct children of a call, joined by "." -/
+def invocationName (n : T) (src : Bytes) : Bytes :=
+  joinB (str ".") ((n.children.filter (fun c => c.ty = "identifier")).map (·.content src))
+
 /-- `extractMethodName`: (methodName, parameters) -/
 def methodNameOf (n : T) (src : Bytes) : Outcome (Bytes × List Bytes) :=
   if n.ty = "method_declaration" then
@@ -38,16 +42,14 @@ def methodNameOf (n : T) (src : Bytes) : Outcome (Bytes × List Bytes) :=
       (fun fp => fp.namedChildren.map (·.content src))
     .ok (name, params)
   else if n.ty = "method_invocation" then
-    let ids := (n.children.filter (fun c => c.ty = "identifier")).map (·.content src)
-    let name := joinB (str ".") ids
     match n.childByField "argument_list" with
-    | none => .ok (name, [])
+    | none => .ok (invocationName n src, [])
     | some args =>
         -- `argument.Child(0).Content(…)` for every child of the argument list, once per child of the call
-        if args.children.all (fun a => (a.child 0).isSome) then
-          let one := args.children.filterMap (fun a => (a.child 0).map (·.content src))
-          .ok (name, (n.children.flatMap (fun _ => one)))
-        else .panic "extractMethodName: argument.Child(0) is nil"
+        match args.children.all (fun a => (a.child 0).isSome) with
+        | true => .ok (invocationName n src,
+                    n.children.flatMap (fun _ => args.children.filterMap (fun a => (a.child 0).map (·.content src))))
+        | false => .panic "extractMethodName: argument.Child(0) is nil"
   else .ok ([], [])
 
 /-- variable name: the identifier of the last `variable_declarator` (its whole text if it has none) -/
@@ -64,11 +66,7 @@ def classNameOf (n : T) (src : Bytes) : Bytes :=
   ((n.children.filter (fun c => c.ty = "type_identifier" ∨ c.ty = "scoped_type_identifier")).getLast?.map (·.content src)).getD []
 
 def opaqueVal (name : String) (n : T) (src : Bytes) : Outcome Bytes :=
-  if name = "methodName" then
-    match methodNameOf n src with
-    | .ok p => .ok p.1
-    | .diag m => .diag m
-    | .panic m => .panic m
+  if name = "methodName" then (methodNameOf n src).mapOk (·.1)
   else if name = "variableName" then .ok (variableNameOf n src)
   else if name = "className" then .ok (classNameOf n src)
   else if name = "node.ChildByFieldName(\"name\").Content(sourceCode)" then
@@ -78,11 +76,7 @@ def opaqueVal (name : String) (n : T) (src : Bytes) : Outcome Bytes :=
   else .diag ("factgen produced an identity component the model does not know: " ++ name)
 
 def opaqueListVal (name : String) (n : T) (src : Bytes) : Outcome (List Bytes) :=
-  if name = "parameters" then
-    match methodNameOf n src with
-    | .ok p => .ok p.2
-    | .diag m => .diag m
-    | .panic m => .panic m
+  if name = "parameters" then (methodNameOf n src).mapOk (·.2)
   else .diag ("factgen produced an identity list the model does not know: " ++ name)
 
 /-- flat atoms only (no nested lists) -/
@@ -108,28 +102,14 @@ def seqOutcome {α : Type} : List (Outcome α) → Outcome (List α)
       | .panic m => .panic m
 
 def atomBytes (n : T) (src file : Bytes) : IdAtom → Outcome Bytes
-  | .opaqueList name =>
-      match opaqueListVal name n src with
-      | .ok xs => .ok (fmtList xs)
-      | .diag m => .diag m
-      | .panic m => .panic m
+  | .opaqueList name => (opaqueListVal name n src).mapOk fmtList
   | .strList items =>
-      match seqOutcome (items.map (fun it =>
-              match seqOutcome (it.map (atomFlat n src file)) with
-              | .ok parts => .ok parts.flatten
-              | .diag m => .diag m
-              | .panic m => .panic m)) with
-      | .ok xs => .ok (fmtList xs)
-      | .diag m => .diag m
-      | .panic m => .panic m
+      (seqOutcome (items.map (fun it => (seqOutcome (it.map (atomFlat n src file))).mapOk List.flatten))).mapOk fmtList
   | a => atomFlat n src file a
 
 /-- the identity pre-image of literal `l` at node `n` -/
 def preimage (l : NodeLit) (n : T) (src file : Bytes) : Outcome Bytes :=
-  match seqOutcome (l.idFmt.map (atomBytes n src file)) with
-  | .ok parts => .ok parts.flatten
-  | .diag m => .diag m
-  | .panic m => .panic m
+  (seqOutcome (l.idFmt.map (atomBytes n src file))).mapOk List.flatten
 
 /-! ### which literals fire at a node -/
 
@@ -142,6 +122,10 @@ def shapeOk (n : T) : Bool :=
       (fp.namedChildren.filter (fun p => p.ty = "formal_parameter")).all (fun p => (p.child 0).isSome && (p.child 1).isSome))
   else if n.ty = "yield_statement" ∨ n.ty = "assert_statement" then (n.child 1).isSome
   else if n.ty = "class_declaration" then (n.childByField "name").isSome
+  else if n.ty = "method_invocation" then
+    match n.childByField "argument_list" with
+    | none => true
+    | some args => args.children.all (fun a => (a.child 0).isSome)
   else true
 
 def guardHolds (l : NodeLit) (n : T) (src : Bytes) : Bool :=
@@ -162,10 +146,7 @@ def emitAt (n : T) (src file : Bytes) : Outcome (List Ent) :=
   if !shapeOk n then .panic ("nil dereference at a " ++ n.ty ++ " node")
   else
     seqOutcome (((litsFor n).filter (fun l => l.added && guardHolds l n src)).map (fun l =>
-      match preimage l n src file with
-      | .ok p => .ok { kind := l.kind, ty := n.ty, sb := n.sb, eb := n.eb, line := n.sr + 1, pre := p }
-      | .diag m => .diag m
-      | .panic m => .panic m))
+      (preimage l n src file).mapOk (fun p => { kind := l.kind, ty := n.ty, sb := n.sb, eb := n.eb, line := n.sr + 1, pre := p })))
 
 structure St where
   ents  : List Ent := []               -- in insertion order
@@ -209,5 +190,10 @@ def dedup : List Ent → List Ent
 
 /-- `buildGraphFromAST` on one file -/
 def buildGraph (t : T) (src file : Bytes) : Outcome St := traverse src file t none {}
+
+/-- iterations of the inner loop of `markInvokedMethods` (where the hook `verifCountOp` sits):
+    for every method declaration of the graph, every node of the graph -/
+def passOps (st : St) : Nat :=
+  ((dedup st.ents).filter (fun e => e.kind = "method_declaration")).length * (dedup st.ents).length
 
 end Cpf.Scan
